@@ -1549,7 +1549,7 @@ class WassersteinDistanceNewton(VariationalWassersteinDistance):
         )
 
         # Initialize distance in case below iteration fails
-        new_distance = 0
+        new_distance = self.l1_dissipation(solution_i[self.flux_slice])
 
         # Initialize container for storing the convergence history
         convergence_history = {
@@ -1868,6 +1868,9 @@ class WassersteinDistanceBregman(VariationalWassersteinDistance):
         old_aux_flux = self._shrink(flux, shrink_factor)
         old_force = flux - old_aux_flux
         old_distance = self.l1_dissipation(flux)
+
+        # Distance of the initial flux, returned if the first iteration fails
+        new_distance = old_distance
 
         iter = 0
 
